@@ -27,7 +27,7 @@ RULE = (
 ASSUMPTIONS = [
     "vk/mcdriver.py calls the real binding / message handlers of esp_menuconfig/app.py on a stub application (fake widgets around the real MenuOptionList.populate / current_node, dialogs answered at once by the action's arguments with the submit logic of the real screens); the Textual event loop, key dispatch and screen composition are not in the loop",
 ]
-BUDGET = {"quick": {"examples": 9600}, "thorough": {"examples": 100000, "deadline_s": 900}}
+BUDGET = {"quick": {"examples": 9600}, "thorough": {"examples": 400000, "deadline_s": 900}}
 
 CFG = gen.cfg(max_syms=12, p_menu=22, p_menuconfig=20, p_choice=14, p_warning=10, p_prompt=90, p_keep_empty_menu=60)
 
